@@ -175,6 +175,13 @@ func (x *Exec) execInstr(fr *frame, ins ssa.Instruction, st *State, reach string
 		return st
 	case *ssa.Range:
 		fr.vals[t] = x.val(fr, t.X, st)
+		if mt, ok := t.X.Type().Underlying().(*types.Map); ok && fr.top && !x.errflow {
+			// visited set of this map iteration (a private ghost): nothing visited yet
+			comp := "L_vis_" + sanitize(fr.fn.Name()) + "_" + t.Name()
+			x.so.addComp(comp, "(Array "+x.so.sortOf(mt.Key())+" Bool)")
+			st.set(comp, x.define(comp, x.so.comps[comp], "((as const (Array "+x.so.sortOf(mt.Key())+" Bool)) false)"))
+			x.visComp = comp
+		}
 		return st
 	case *ssa.Next:
 		it := x.val(fr, t.Iter, st)
@@ -192,6 +199,15 @@ func (x *Exec) execInstr(fr *frame, ins ssa.Instruction, st *State, reach string
 			x.assume(reach, f)
 		}
 		x.assume(reach, "(=> "+okT+" (and (not (= "+it.t+" 0)) (select (select "+st.get(mp)+" "+it.t+") "+x.mapKey(k, mt.Key(), st)+") (= "+v+" (select (select "+st.get(mv)+" "+it.t+") "+x.mapKey(k, mt.Key(), st)+"))))")
+		if comp := "L_vis_" + sanitize(fr.fn.Name()) + "_" + rng.Name(); fr.top && !x.errflow && x.so.comps[comp] != "" {
+			// a map iteration yields every present key exactly once: the key handed out was not visited
+			// before, and when the iteration is over every present key has been visited
+			vis := st.get(comp)
+			kk := x.mapKey(k, mt.Key(), st)
+			x.assume(reach, "(=> "+okT+" (not (select "+vis+" "+kk+")))")
+			x.assume(reach, "(=> (not "+okT+") (forall ((w! "+x.so.sortOf(mt.Key())+")) (! (=> (select (select "+st.get(mp)+" "+it.t+") w!) (select "+vis+" w!)) :pattern ((select "+vis+" w!)))))")
+			st.set(comp, x.define(comp, x.so.comps[comp], "(ite "+okT+" (store "+vis+" "+kk+" true) "+vis+")"))
+		}
 		fr.vals[t] = sval{tup: []sval{{t: okT}, {t: k}, {t: v}}}
 		return st
 	case *ssa.MakeClosure:
